@@ -5,6 +5,7 @@ import (
 	"go/constant"
 	"go/token"
 	"go/types"
+	"sort"
 	"strings"
 
 	"golang.org/x/tools/go/ssa"
@@ -502,6 +503,13 @@ func (x *Evaluator) evalKnown(callee *ssa.Function, call *ssa.Call, idx int, e *
 		return x.evalSprintf(args, e, c), true
 	case "fmt.Errorf", "errors.New":
 		return OpaqueV{"error"}, true
+	case "(*strings.Builder).String":
+		if al, ok := args[0].(*ssa.Alloc); ok {
+			return strV(x.builderText(al, call, e, c)), true
+		}
+		return strV(Tmpl{Unknown{"text of a builder that is not a local"}}), true
+	case "(*strings.Builder).WriteString", "(*strings.Builder).WriteByte", "(*strings.Builder).WriteRune", "(*strings.Builder).Write", "(*strings.Builder).Grow", "(*strings.Builder).Reset":
+		return OpaqueV{"builder-write"}, true
 	case "strings.Join":
 		lst := x.evalC(args[0], e, c)
 		sep := asTmpl(x.evalC(args[1], e, c))
@@ -774,4 +782,127 @@ func alwaysErrorCall(c *ssa.Call, depth int) bool {
 		alwaysErrMemo[callee] = 1
 	}
 	return all
+}
+
+// builderText: the text a local strings.Builder holds when String() is called at `at`: the
+// pieces written to it, in order. A piece written on every way to `at` is there; a piece
+// written on some ways only is optional; the pieces written inside a loop that has ended by
+// then repeat together.
+func (x *Evaluator) builderText(al *ssa.Alloc, at *ssa.Call, e *env, c *evalCtx) Tmpl {
+	fn := al.Parent()
+	type write struct {
+		call *ssa.Call
+		text ssa.Value
+	}
+	var ws []write
+	for _, ref := range *al.Referrers() {
+		call, ok := ref.(*ssa.Call)
+		if !ok || len(call.Call.Args) == 0 || call.Call.Args[0] != ssa.Value(al) {
+			if _, isDbg := ref.(*ssa.DebugRef); isDbg || ref == ssa.Instruction(at) {
+				continue
+			}
+			if call != nil && call == at {
+				continue
+			}
+			if ok {
+				continue
+			}
+			return Tmpl{Unknown{"builder handed to other code"}}
+		}
+		callee := call.Call.StaticCallee()
+		if callee == nil {
+			return Tmpl{Unknown{"builder handed to other code"}}
+		}
+		switch callee.String() {
+		case "(*strings.Builder).WriteString":
+			ws = append(ws, write{call, call.Call.Args[1]})
+		case "(*strings.Builder).WriteByte", "(*strings.Builder).WriteRune", "(*strings.Builder).Write":
+			ws = append(ws, write{call, nil})
+		case "(*strings.Builder).String", "(*strings.Builder).Len", "(*strings.Builder).Grow":
+		case "(*strings.Builder).Reset":
+			return Tmpl{Unknown{"builder that is reset"}}
+		default:
+			return Tmpl{Unknown{"builder handed to " + callee.String()}}
+		}
+	}
+	// source order: block index, then position in the block
+	sort.Slice(ws, func(i, j int) bool {
+		bi, bj := ws[i].call.Block().Index, ws[j].call.Block().Index
+		if bi != bj {
+			return bi < bj
+		}
+		return instrIndex(ws[i].call) < instrIndex(ws[j].call)
+	})
+	loops := naturalLoops(fn)
+	// the outermost loop around a block that does not contain `at`
+	outerLoop := func(b *ssa.BasicBlock) *ssa.BasicBlock {
+		var out *ssa.BasicBlock
+		for h := loops[b]; h != nil; {
+			if loopBody(h)[at.Block()] {
+				break
+			}
+			out = h
+			// next enclosing loop: the loop of the header's predecessors outside this body
+			var next *ssa.BasicBlock
+			body := loopBody(h)
+			for _, p := range h.Preds {
+				if !body[p] {
+					next = loops[p]
+				}
+			}
+			if next == h {
+				break
+			}
+			h = next
+		}
+		return out
+	}
+	piece := func(w write) Tmpl {
+		if w.text == nil {
+			return Tmpl{Unknown{"a byte or rune written to a builder"}}
+		}
+		return asTmpl(x.evalC(w.text, e, c))
+	}
+	reach := x.reachable(e)
+	var out Tmpl
+	for i := 0; i < len(ws); {
+		w := ws[i]
+		if len(reach) > 0 && !reach[w.call.Block()] {
+			i++
+			continue
+		}
+		if h := outerLoop(w.call.Block()); h != nil {
+			var inner Tmpl
+			body := loopBody(h)
+			var latch *ssa.BasicBlock
+			for _, p := range h.Preds {
+				if body[p] {
+					latch = p
+				}
+			}
+			for i < len(ws) && outerLoop(ws[i].call.Block()) == h {
+				t := piece(ws[i])
+				if latch != nil && (ws[i].call.Block() == latch || ws[i].call.Block().Dominates(latch)) {
+					inner = cat(inner, t)
+				} else {
+					inner = cat(inner, mkAlt("", Tmpl{}, t))
+				}
+				i++
+			}
+			out = cat(out, Tmpl{Rep{inner}})
+			continue
+		}
+		t := piece(w)
+		if w.call.Block() == at.Block() && instrIndex(w.call) > instrIndex(at) {
+			i++
+			continue // written after the text was taken
+		}
+		if w.call.Block() == at.Block() || w.call.Block().Dominates(at.Block()) {
+			out = cat(out, t)
+		} else {
+			out = cat(out, mkAlt("", Tmpl{}, t))
+		}
+		i++
+	}
+	return out
 }
